@@ -101,7 +101,7 @@ static void check_counts(Scen& s, bool full, const char* when) {
                 else s.fail(lost_key, name + " processed message " + std::to_string(x) + " " + std::to_string(c2) + " times, the wiring demands " + std::to_string(e) + " (" + std::to_string(s.M) + " messages, " + std::to_string(s.NN) + " nodes)" + when);
             }
         };
-        for (Probe* p : single) for (int x = 0; x < s.M && s.fails.load(RLX) < 20; x++) { uint32_t c = p->cnt[x].load(RLX); if (c != p->exp[x]) cmp(p->name, x, c, p->exp[x], [&] { return (uint64_t)p->cnt[x].load(RLX); }); }
+        for (Probe* p : single) for (int x = 0; x < s.M && s.fails.load(RLX) < 20; x++) { uint32_t c = p->cnt[x].load(RLX); if (p->lossy ? c > p->exp[x] : c != p->exp[x]) cmp(p->name, x, c, p->exp[x], [&] { return (uint64_t)p->cnt[x].load(RLX); }); if (p->lossy && c < p->exp[x]) G.lossy_drops.fetch_add(p->exp[x] - c, RLX); }
         if (!grp.empty()) for (int x = 0; x < s.M && s.fails.load(RLX) < 20; x++) {
             auto sum = [&] { uint64_t t = 0; for (Probe* p : grp) t += p->cnt[x].load(RLX); return t; };
             uint64_t c = sum(); if (c != grp[0]->exp[x]) cmp("node " + std::to_string(n->idx) + " (" + kind_name[n->kind] + "), all workers together", x, c, grp[0]->exp[x], sum);
@@ -381,7 +381,7 @@ int main(int argc, char** argv) {
     keeper().set(nullptr);
     perturb().clear();
     watchdog_stop();
-    R.stat("body_invocations", G.bodies.load()); R.stat("messages", G.msgs.load()); R.stat("rounds", G.rounds.load()); R.stat("wait_for_all_returns_checked", G.waits_checked.load());
+    R.stat("body_invocations", G.bodies.load()); R.stat("messages", G.msgs.load()); R.stat("rounds", G.rounds.load()); R.stat("messages_a_rejecting_first_successor_of_a_fanout_did_not_get(cumulative per round)", G.lossy_drops.load()); R.stat("wait_for_all_returns_checked", G.waits_checked.load());
     R.stat("wait_for_all_racing_putters", G.early_waits.load()); R.stat("external_puts_while_bodies_running", G.puts_while_running.load());
     R.stat("limited_bodies", G.limited_nodes.load()); R.stat("limited_bodies_that_reached_their_limit", G.limit_reached.load()); R.stat("scenarios_bodies_overlapped", G.scen_overlap.load());
     R.stat("async_completions_from_foreign_threads", G.async_done.load()); R.stat("lossy_external_puts_accepted", G.ext_accepted.load()); R.stat("lossy_external_puts_rejected", G.ext_rejected.load());
